@@ -431,7 +431,9 @@ func (f *Filter) setRegexFilter(options ParseOptions) error {
 	if options&ParseOptimize != 0 && strings.HasPrefix(val, "^") && strings.HasSuffix(val, "$") {
 		val2 := strings.TrimPrefix(val, "^")
 		val2 = strings.TrimSuffix(val2, "$")
-		if !hasRegexpCharacters(val2) && !f.column.DataType.isNumeric() {
+		// lists have no equal operator, the regular expression matches if one of the members matches
+		isList := f.column.DataType == StringListCol || f.column.DataType == ServiceMemberListCol || f.column.DataType == InterfaceListCol
+		if !hasRegexpCharacters(val2) && !f.column.DataType.isNumeric() && !isList {
 			switch f.operator {
 			case RegexMatch:
 				f.operator = Equal
